@@ -970,7 +970,7 @@ func runC08(r *Report) {
 	}
 	c08Witness(r)
 	r.Analysed["decoder_loops"] = nLoops
-	r.FloorMin("decoder loops (loops that decode into a variable)", nLoops, 25)
+	r.FloorMin("decoder loops (loops that decode into a variable)", nLoops, 10)
 	r.Analysed["schema_positions_visited"] = nPos
 	r.Analysed["json_body_sites"] = nBodies
 	r.FloorMin("schema positions visited", nPos, 300)
